@@ -64,7 +64,7 @@ func mirrorSFlowDispatcher(ch chan SFUDPMsg) {
 
 func mirrorSFlow(dst net.IP, port int, ch chan SFUDPMsg) error {
 	var (
-		packet = make([]byte, opts.SFlowUDPSize)
+		packet = make([]byte, opts.SFlowUDPSize+mirror.IPv6HLen+mirror.UDPHLen)
 		msg    SFUDPMsg
 		pLen   int
 		err    error
@@ -107,6 +107,11 @@ func mirrorSFlow(dst net.IP, port int, ch chan SFUDPMsg) error {
 		// IPv6 checksum mandatory
 		if !ipv4 {
 			udp.SetChecksum()
+		}
+
+		// room for the headers in front of the payload
+		if ipHLen+mirror.UDPHLen+pLen > len(packet) {
+			packet = make([]byte, ipHLen+mirror.UDPHLen+pLen)
 		}
 
 		copy(packet[0:ipHLen], ipHdr)
